@@ -51,8 +51,6 @@ def nontrivial(sc, r):
 def known_match(k, clause, idx, sc, r):
     """D7: several callers target the same *idle* loop concurrently; one of them sees the loop running
     under another caller's temporary run_until_complete, submits thread-safely, and is stranded."""
-    if k.get('signature') == 'loop_in_thread-during-temporary-run':
-        return clause == 'C17_StartSync' and sc.get('target') == 'idle_then_lit'
     if k.get('signature') == 'idle-target-concurrent-ensure_aw':
         if not (clause == 'C17_Completes' and sc.get('target') == 'idle'
                 and sum(1 for c in sc['callers'] if c['to'] == 'T') >= 2):
